@@ -460,7 +460,9 @@ def get_trace(job, res, prop):
     return None
 
 
-NATIVE_FLAGS = ['-std=gnu99', '-O0', '-g', '-fsanitize=address,undefined',
+# alignment is excluded: misaligned typed accesses are the business of C15 (the VSS codec has known ones),
+# they must not "confirm" an unrelated counterexample
+NATIVE_FLAGS = ['-std=gnu99', '-O0', '-g', '-fsanitize=address,undefined', '-fno-sanitize=alignment',
                 '-fno-sanitize-recover=all', '-fno-omit-frame-pointer', '-w']
 
 
@@ -492,6 +494,7 @@ def write_replay(job, prop, value, tag):
 def replay_dir(d, verbose=False):
     """rebuild the replay natively against /repo's current tree and run it.
     returns (reproduced: bool|None, text).  None = cannot be replayed natively."""
+    d = os.path.abspath(d)
     meta = json.load(open(os.path.join(d, 'meta.json')))
     if meta.get('be'):
         return replay_dir_cbmc(d, meta)
